@@ -209,6 +209,7 @@ class Ref:
         self.read_log = []  # ordered (key, present)
         self.abandoned_reads = set()  # reads made inside coalesce members / dispatches that then failed
         self.optional_absent = set()
+        self.before = set()
         self._trial = 0
         self._trial_marks = []
         self._defs = {}
@@ -222,6 +223,7 @@ class Ref:
         self.optional_absent = set()
         self.body_events = []
         self.effect_events = []
+        self.before = set()  # ((kind, name) produced earlier, (kind, name) of its consumer)
         self._trial = 0
         self._trial_marks = []
         try:
@@ -373,8 +375,23 @@ class Ref:
         mixed.update(params)
         return str(self.resolve(t[1], mixed))
 
+    @staticmethod
+    def _first_fn(f):
+        while f[0] == "pipe" and f[1]:
+            f = f[1][0]
+        if f[0] == "fn":
+            return ("pred" if is_pred(f[1]) else "fn", f[1])
+        if f[0] in ("step", "pa"):
+            return ("pred" if is_pred(f[1]) else "fn", f[1])
+        return None
+
     def ev_apply(self, t, o):
+        i0 = len(self.log)
         v = self.ev(t[1], o)
+        consumer = self._first_fn(t[2])
+        if consumer is not None:
+            for k, n, _ in self.log[i0:]:
+                self.before.add(((k, n), consumer))
         f = self.ev(t[2], o)
         return f(v)
 
@@ -553,7 +570,10 @@ class Ref:
         self.body_events.append((name, self._projection(t, o2)))
 
         def body():
+            i0 = len(self.log)
             args = [self.ev(x, o2) for x in p["params"]]
+            for k, n, _ in self.log[i0:]:
+                self.before.add(((k, n), ("body", name)))
             return self._call("body", name, tag_fn(name), tuple(args))
 
         class _B:
